@@ -24,6 +24,59 @@ const schedImport = "github.com/pointlander/peg/verifsched"
 // clause (textually, so comments and directives survive), redirects the sync import to the
 // scheduler's shim and turns go statements into scheduler threads. It also counts constructs
 // the scheduler cannot control.
+var mapSeams int
+
+// mapNames collects identifiers that are syntactically maps in a file: struct fields and
+// variables declared with a map type, make(map...) or a map literal.
+func mapNames(f *ast.File) map[string]bool {
+	maps := map[string]bool{}
+	ast.Inspect(f, func(nd ast.Node) bool {
+		switch x := nd.(type) {
+		case *ast.Field:
+			if _, ok := x.Type.(*ast.MapType); ok {
+				for _, nm := range x.Names {
+					maps[nm.Name] = true
+				}
+			}
+		case *ast.ValueSpec:
+			if _, ok := x.Type.(*ast.MapType); ok {
+				for _, nm := range x.Names {
+					maps[nm.Name] = true
+				}
+			}
+		case *ast.AssignStmt:
+			for i, r := range x.Rhs {
+				isMap := false
+				if call, ok := r.(*ast.CallExpr); ok && len(call.Args) > 0 {
+					if id, ok := call.Fun.(*ast.Ident); ok && id.Name == "make" {
+						_, isMap = call.Args[0].(*ast.MapType)
+					}
+				}
+				if cl, ok := r.(*ast.CompositeLit); ok {
+					_, isMap = cl.Type.(*ast.MapType)
+				}
+				if isMap && i < len(x.Lhs) {
+					if l, ok := x.Lhs[i].(*ast.Ident); ok {
+						maps[l.Name] = true
+					}
+				}
+			}
+		}
+		return true
+	})
+	return maps
+}
+
+func isMapExpr(e ast.Expr, maps map[string]bool) bool {
+	switch x := e.(type) {
+	case *ast.Ident:
+		return maps[x.Name]
+	case *ast.SelectorExpr:
+		return maps[x.Sel.Name]
+	}
+	return false
+}
+
 func instrumentSource(name string, src []byte, firstSite int) (out []byte, sites int, uncontrolled []string, err error) {
 	fset := token.NewFileSet()
 	f, err := parser.ParseFile(fset, name, src, parser.ParseComments)
@@ -35,6 +88,12 @@ func instrumentSource(name string, src []byte, firstSite int) (out []byte, sites
 		text string
 	}
 	var inserts []ins
+	type rep struct {
+		from, to int
+		text     string
+	}
+	var replaces []rep
+	maps := mapNames(f)
 	site := firstSite
 	addStmts := func(list []ast.Stmt) {
 		for _, s := range list {
@@ -68,10 +127,38 @@ func instrumentSource(name string, src []byte, firstSite int) (out []byte, sites
 				uncontrolled = append(uncontrolled, "channel receive at "+fset.Position(x.Pos()).String())
 			}
 		case *ast.RangeStmt:
-			// map iteration order is a source of nondeterminism the scheduler does not own; counted by the caller via types
+			// map iteration order is nondeterminism the scheduler does not own: turn `range m` over a
+			// (syntactically recognisable) map into a range over verifsched.Keys(m), whose order the
+			// harness chooses
+			if isMapExpr(x.X, maps) {
+				xs, xe := fset.Position(x.X.Pos()).Offset, fset.Position(x.X.End()).Offset
+				expr := string(src[xs:xe])
+				if x.Value == nil && x.Key != nil {
+					// for k := range m   ->   for _, k := range verifsched.Keys(m)
+					ks := fset.Position(x.Key.Pos()).Offset
+					inserts = append(inserts, ins{ks, "_, "})
+					inserts = append(inserts, ins{xs, "verifsched.Keys("}, ins{xe, ")"})
+					mapSeams++
+				} else if x.Key != nil && x.Value != nil {
+					// for k, v := range m  ->  for _, k := range verifsched.Keys(m) { v := m[k]; ...
+					ks, ke := fset.Position(x.Key.Pos()).Offset, fset.Position(x.Value.End()).Offset
+					keyName := string(src[ks:fset.Position(x.Key.End()).Offset])
+					valName := string(src[fset.Position(x.Value.Pos()).Offset:ke])
+					replaces = append(replaces, rep{ks, ke, "_, " + keyName})
+					inserts = append(inserts, ins{xs, "verifsched.Keys("}, ins{xe, ")"})
+					inserts = append(inserts, ins{fset.Position(x.Body.Lbrace).Offset + 1, " " + valName + " := " + expr + "[" + keyName + "]; _ = " + valName + "; "})
+					mapSeams++
+				}
+			}
 		}
 		return true
 	})
+	_ = replaces
+	skip := map[int]int{} // offset -> end of a replaced span
+	for _, r := range replaces {
+		inserts = append(inserts, ins{r.from, r.text})
+		skip[r.from] = r.to
+	}
 	sort.SliceStable(inserts, func(i, j int) bool { return inserts[i].off < inserts[j].off })
 	var buf bytes.Buffer
 	last := 0
@@ -79,9 +166,15 @@ func instrumentSource(name string, src []byte, firstSite int) (out []byte, sites
 		if in.text == "/*go*/" {
 			continue
 		}
-		buf.Write(src[last:in.off])
+		if in.off > last {
+			buf.Write(src[last:in.off])
+			last = in.off
+		}
 		buf.WriteString(in.text)
-		last = in.off
+		if to, ok := skip[in.off]; ok && to > last {
+			last = to
+			delete(skip, in.off)
+		}
 	}
 	buf.Write(src[last:])
 	text := buf.String()
@@ -136,6 +229,8 @@ func c09Grammars() []c09Job {
 		"switch":   hdr + "List <- Item List / Item\nItem <- 'a' { p.N++ } / 'b' / [c-e] 'x' / Str\nStr <- '\"' (!'\"' .)* '\"'\n",
 		"clean":    hdr + "E <- T ('+' T { p.N++ })* !.\nT <- F ('*' F)*\nF <- <[0-9]+> { _ = text } / '(' E2 ')'\nE2 <- T ('+' T)*\n",
 		"leftrec":  hdr + "S <- X 'x' / Y\nX <- Y? X 'q' / 'r'\nY <- !X 'y' / S 'z'\n",
+		// several undefined and several unused rules: the order of the diagnostics must be fixed
+		"manywarn": hdr + "S <- U1 / U2 'x' / U3? 'y' / &U4 'z' / U5*\nN1 <- 'a' U6\nN2 <- N3\nN3 <- 'b' U7\nN4 <- N4 'c'\n",
 	}
 	var names []string
 	for k := range texts {
@@ -163,6 +258,7 @@ func c09Check(prop, tier string) (*Outcome, error) {
 	_ = os.MkdirAll(hdir, 0o755)
 	replace := map[string]string{}
 	totalSites := 0
+	mapSeams = 0
 	var uncontrolled []string
 	for _, pkg := range []string{"tree", "set"} {
 		ents, err := os.ReadDir(filepath.Join(engine.RepoDir, pkg))
@@ -344,7 +440,11 @@ func c09Check(prop, tier string) (*Outcome, error) {
 	}
 	collect("one Compile", rs)
 	// S2: two Compiles of independent trees as two threads
-	pairs := []c09Job{jobs[0], jobs[4], jobs[4], jobs[0]} // grammars without warnings, no -switch (its rune loops make millions of points)
+	byName := map[string]c09Job{}
+	for _, j := range jobs {
+		byName[j.Name] = j
+	}
+	pairs := []c09Job{byName["clean"], byName["switch"], byName["switch"], byName["clean"]} // grammars without warnings, no -switch (its rune loops make millions of points)
 	b2, max2 := 0, int64(2000)
 	if tier == "thorough" {
 		b2, max2 = 1, 200000
@@ -361,7 +461,7 @@ func c09Check(prop, tier string) (*Outcome, error) {
 		return nil, err
 	}
 	mapRanges := countMapRanges()
-	if len(uncontrolled) > 0 || mapRanges > 0 {
+	if len(uncontrolled) > 0 || mapRanges > mapSeams {
 		out.Exhaustive = false
 	}
 	out.Coverage["states"] = decisions + schedules
@@ -373,6 +473,7 @@ func c09Check(prop, tier string) (*Outcome, error) {
 	out.Coverage["statement_level_scheduling_points_inserted"] = totalSites
 	out.Coverage["constructs_the_scheduler_cannot_control"] = uncontrolled
 	out.Coverage["map_range_loops_in_tree_and_set"] = mapRanges
+	out.Coverage["map_range_loops_turned_into_seams"] = mapSeams
 	out.Coverage["free_running_and_history_pass"] = free
 	out.Coverage["evaluations"] = schedules
 	out.Coverage["distinct_nontrivial"] = schedules
